@@ -157,3 +157,25 @@ Example C13_copy_premises_satisfiable :
   no_links [([100], KDir); ([100;47;120], KFile)] /\ dupcheck (mkcfg true true true false) = true /\
   presfix (mkcfg true true true false) = true.
 Proof. split; [intros q [H | [H | []]]; inversion H|split; reflexivity]. Qed.
+
+(* Several sources in ONE call (get([a/x, b/x], dst), glob matches in several directories, put and
+   copy alike): C13_copy_never_through_new_link, C13_copy_resolves_inside and
+   C13_copy_preserve_never_follows_new_link above quantify over the whole top-level source list
+   [srcs], duplicate base names included - the `symlinks` set spans the call.  A set created afresh
+   for every top-level source (seeded change C13-e) does not: *)
+Theorem C13_copy_per_source_set_refuted :
+  exists orc c dst srcs fs0,
+    no_links fs0 /\ dupcheck c = true /\ presfix c = true /\
+    Forall (fun e => mem_z SLASH (fst e) = false) srcs /\
+    exists l1 t q th l2 o,
+      copy_plan_persrc orc c dst srcs fs0 = l1 ++ OSymlink t q true th :: l2 /\ In o l2 /\
+      strict o = true /\ zprefix (q ++ [SLASH]) (op_path o) = true /\ op_thru o = true.
+Proof. exact copy_per_source_set_refuted. Qed.
+Print Assumptions C13_copy_per_source_set_refuted.
+
+(* the same two sources under the code as it is: the second "x" is refused (SFTPBadMessage) *)
+Example C13_copy_two_sources_rejected :
+  begin_copy w_orc2 (mkcfg false true false false) 3 w_dst w_two w_fs0 =
+  ([OIsdir [100] true false; OSymlink [47;111] [100;47;120] true false],
+   ([([100;47;120], KLink); ([100], KDir)], [[100;47;120]]), Some EBad).
+Proof. exact copy_two_sources_rejected. Qed.
